@@ -283,7 +283,7 @@ def run(ctx):
     stdout_cases(ctx)
 
 
-STDOUT_LINES = [b"  Ran 3 tests with 0 failures\n", b".\n", b"....\n", b"..\r\n", b"...\r", b"." * 72 + b" done\n",
+STDOUT_LINES = [b"...\rprogress of a test\n", b"  Ran 3 tests with 0 failures\n", b".\n", b"....\n", b"..\r\n", b"...\r", b"." * 72 + b" done\n",
                 b"." * 200 + b"|\n", b" ...\n", b"... \n", b"\n", b"x" * 70000 + b"\n", b"\xff\xfe binary\n",
                 b"." * 40 + b" " + b"." * 40 + b"!\n", b"no newline at the end", b"1 0 0\n"]
 
